@@ -340,6 +340,18 @@ def run(ctx):
             others = [fams[t] for t in have if t not in odd]
             ref = [t for t in have if t not in odd]
             d = (G.first_diff(gsi[ref[0]], gsi[odd_t]) if ref else None) or diffs[0][1]
+            # how much of the guarded effects do the copies still share?  A deviation inside otherwise identical code is a
+            # defect signal; a copy whose effects have little in common with the others is a different implementation, about
+            # which a sibling comparison says nothing (it is still checked on its own by every other rule)
+            import collections
+            ca = collections.Counter((e[1], e[2]) for e in gsi[ref[0]]) if ref else collections.Counter()
+            cb = collections.Counter((e[1], e[2]) for e in gsi[odd_t])     # effects without their guards: a changed test must not count as "everything changed"
+            uni = sum((ca | cb).values())
+            sim = (sum((ca & cb).values()) / uni) if uni else 1.0
+            if ref and uni >= 12 and sim < 0.4:
+                ctx.add(RULE, f, 'sibling(%s)' % key[1], 'info', '%s is implemented differently in the %s copy (%.0f%% of the guarded effects in common with the %s cop%s): sibling comparison not applicable, the copy is checked on its own by the other rules' % (key[1], fams[odd_t], 100 * sim, '/'.join(others), 'ies' if len(others) > 1 else 'y'),
+                        props_of(prog, f, c09), f.line, {'similarity': round(sim, 2)}, nontrivial=False)
+                continue
             ctx.add(RULE, f, 'sibling(%s)' % key[1], 'violation',
                     'copies disagree: %s in the %s copy differs from the %s cop%s; first difference at %s' % (key[1], fams[odd_t], '/'.join(others) or 'other', 'ies' if len(others) > 1 else 'y', d),
                     props_of(prog, f, c09), f.line, {'copies': [fams[t] for t in have], 'difference': d})
